@@ -33,7 +33,8 @@ CONSTANTS
    clockless  creation time zero + bundle age block
    tsg      0, or a group number: bundles of one group share source and creation millisecond
    req      subset of {"rcpt","fwd","dlv","del"}: requested status reports
-   admin    payload is an administrative record
+   admin    payload is an administrative record (a status report); about: the catalogue bundle it reports on ("" = a bundle unknown
+            here), rkind: "received" | "forwarded" | "delivered" | "deleted"
    rptlocal report-to endpoint is on this node
    hop      <<>> or <<limit, count>>
    hasunk   the bundle carries a block of a type this node does not know; unkf: its flags, subset of {"report","delete","remove"}
@@ -157,10 +158,16 @@ Forward(w, b, tg) ==
                IN IF isDirect \/ DeleteAfter(b) THEN Forget(w4, b) ELSE SetPending(w4, b)
           ELSE SetPending(w3, b)
 
+(* an administrative record addressed to this node is inspected first: a status report saying that a bundle this node still
+   stores was delivered releases that bundle; every other status leaves the store alone *)
+Inspect(w, b) ==
+  LET x == Attr[b].about IN
+  IF Attr[b].admin /\ x # "" /\ Attr[b].rkind = "delivered" /\ w.st[x].known THEN Forget(w, x) ELSE w
 LocalDeliver(w, b) ==
+  LET w0 == Inspect(w, b) IN
   IF Attr[b].dst = "app"
-  THEN Forget(ReportIf([w EXCEPT !.delivered = @ \cup {b}], b, "dlv", "delivered", "none"), b)
-  ELSE [w EXCEPT !.st[b].pending = FALSE]     \* nobody to hand it to: kept (not pending), nothing reported
+  THEN Forget(ReportIf([w0 EXCEPT !.delivered = @ \cup {b}], b, "dlv", "delivered", "none"), b)
+  ELSE [w0 EXCEPT !.st[b].pending = FALSE]     \* nobody to hand it to: kept (not pending), nothing reported
 
 Dispatch(w, b, tg) ==
   IF ~Allowed(w, b) THEN SetPending(w, b)
